@@ -131,7 +131,11 @@ func work(specPath, root string) error {
 				break
 			}
 			if _, err = f.Seek(int64(s.Chunk[0]), 0); err == nil {
-				_, err = io.CopyN(f, bytes.NewReader(blob[s.Chunk[0]:s.Chunk[1]]), int64(s.Chunk[1]-s.Chunk[0]))
+				chunk := append([]byte{}, blob[s.Chunk[0]:s.Chunk[1]]...)
+				if s.Corrupt && len(chunk) > 0 {
+					chunk[len(chunk)/2] ^= 0x21
+				}
+				_, err = io.CopyN(f, bytes.NewReader(chunk), int64(len(chunk)))
 			}
 			if cerr := f.Close(); err == nil {
 				err = cerr
@@ -145,8 +149,12 @@ func work(specPath, root string) error {
 		case "generate":
 			err = gen.Generate(d)
 		case "refresh":
-			err = cas.WriteBlobToCacheWithMetaInfo(d.Hex(), uint64(len(blob)), func(w store.FileReadWriter) error {
-				_, werr := w.Write(blob)
+			payload := append([]byte{}, blob...)
+			if s.Corrupt && len(payload) > 0 {
+				payload[len(payload)/2] ^= 0x21
+			}
+			err = cas.WriteBlobToCacheWithMetaInfo(d.Hex(), uint64(len(payload)), func(w store.FileReadWriter) error {
+				_, werr := w.Write(payload)
 				return werr
 			}, s.PieceLength)
 		case "drain":
@@ -286,6 +294,11 @@ func observe(req c05wl.RecoverReq) (resp c05wl.RecoverResp) {
 		if err != nil {
 			if !os.IsNotExist(err) {
 				o.ReadErr = err.Error()
+			} else if len(name) >= 4 {
+				if _, serr := os.Stat(filepath.Join(req.Dir, "cache", name[0:2], name[2:4], name, "data")); serr == nil {
+					o.DataOnDisk = true
+					o.ReadErr = err.Error()
+				}
 			}
 			resp.Blobs[name] = o
 			continue
